@@ -48,7 +48,7 @@ impl Recorder {
 
 /// child mode: build every origin and sample every argument in THIS process (different hash seeds), print digests
 pub fn child(lines: &[Value], max: usize, nargs: usize) {
-    for (oi, o) in origins_from_lines(lines, max).iter().enumerate() {
+    for (oi, o) in origins_with_twins(lines, max).iter().enumerate() {
         if let BuildOut::Ok(s) = build(&spec_of(o), o.sig.clone(), o.d) {
             println!("T {} {:016x}", oi, digest_bits(&s.to_json_string(), &[]));
             for a in 0..nargs {
@@ -64,7 +64,7 @@ pub fn run(lines: &[Value], opts: &ApiOpts, trace_path: &str) -> Summary {
     use std::io::Write;
     let mut sm = Summary::default();
     let rec = Arc::new(Mutex::new(Recorder { events: vec![], digests: HashMap::new() }));
-    let origins = origins_from_lines(lines, opts.origins);
+    let origins = origins_with_twins(lines, opts.origins);
     let mut objects: Vec<(i64, usize, Arc<Box<dyn DynSampler>>)> = vec![]; // (sid, origin index, object)
     let mut next_sid = 1i64;
     let mut next_blob = 1i64;
